@@ -133,7 +133,7 @@ def split_trace(path, nshards, group_key=None):
         groups = [[ln] for ln in lines]
     else:
         groups, last = [], object()
-        pat = re.compile(r'"%s":"([^"]*)"' % re.escape(group_key))
+        pat = re.compile(r'"%s":\s*"([^"]*)"' % re.escape(group_key))
         for ln in lines:
             m = pat.search(ln)
             k = m.group(1) if m else None
